@@ -86,8 +86,12 @@ def detect(prop, k):
         sh("git checkout -- .", wt)
         for p in list(found):
             rc, out = sh(f"VERIF_REPO={wt} /verif/check {p} --no-evidence", "/verif")
-            basehits = set(re.sub(r" at \S+:", " at :", l) for l in out.splitlines() if l.startswith("FINDING") or l.startswith("UNDECIDED"))
-            found[p] = [l for l in found[p] if re.sub(r" at \S+:", " at :", l) not in basehits]
+            # what the unpatched base already reports is subtracted by rule+construct (messages quote line numbers and templates)
+            def key(l):
+                m = re.search(r"rule=(\S+) construct=(.*?) at ", l)
+                return (m.group(1), m.group(2)) if m else l
+            basehits = set(key(l) for l in out.splitlines() if l.startswith("FINDING") or l.startswith("UNDECIDED"))
+            found[p] = [l for l in found[p] if key(l) not in basehits]
     finally:
         sh(f"git -C /repo worktree remove --force {wt}", "/")
     return base, found
